@@ -357,6 +357,30 @@ def _all_quals(d):
             yield from _all_quals(v)
 
 
+def widen_literal(comps):
+    """copy of the components in which the first literal containing a blank has that blank doubled"""
+    import copy
+    out = copy.deepcopy(comps)
+    done = [False]
+
+    def walk(n):
+        if done[0] or not isinstance(n, list):
+            return
+        if n and n[0] in ("t", "rx") and isinstance(n[1], str) and " " in n[1].strip() and "  " not in n[1]:
+            i = n[1].strip().index(" ") + (len(n[1]) - len(n[1].lstrip()))
+            n[1] = n[1][:i] + " " + n[1][i:]
+            done[0] = True
+            return
+        if n and n[0] == "hq" and " " in n[1] and "  " not in n[1]:
+            n[1] = n[1].replace(" ", "  ", 1)
+            done[0] = True
+            return
+        for x in n:
+            walk(x)
+    walk(out)
+    return out if done[0] else None
+
+
 def has_ambig(tree):
     for t in tree.iter_subtrees():
         if t.data == "_ambig":
@@ -399,6 +423,19 @@ def run_case(case, sb):
                 if got != src:
                     problems.append({"text": text, "expected_tree": src, "observed_tree": got})
                     break
+            sib = None if problems else widen_literal(comps)
+            if sib is not None:
+                # a sibling csvpath parsed in the same process: one literal (string, regex or quoted header name)
+                # has a doubled blank inside; the same layout otherwise. Its tree differs in that literal only.
+                labels.append("sibling:blank-inside-literal")
+                text2 = rmatch(sib, Layout(case["layouts"][0]))
+                try:
+                    tree = LarkParser().parse(text2)
+                    got2 = [dump_real(e) for e in LarkTransformer(stub_matcher()).transform(tree)]
+                    if got2 != [dump_src(c) for c in sib]:
+                        problems.append({"text": text2, "parsed_after": texts[0], "expected_tree": [dump_src(c) for c in sib], "observed_tree": got2})
+                except Exception as e:  # noqa: BLE001
+                    problems.append({"text": text2, "raised": core.Raised(e).to_json()})
         else:
             records = case["table"]["records"]
             rel = sb.write_csv("f.csv", records)
